@@ -11,7 +11,7 @@ from . import common as C
 
 def main(argv: list[str]) -> int:
     if argv and argv[0] == "--pin":
-        C.pin_statements()
+        C.pin_statements(argv[1:])
         print("pinned")
         return 0
     if argv and argv[0] == "--build":
